@@ -69,20 +69,47 @@ def num(x):
     return "nan" if math.isnan(x) else x
 
 
+RUNNER = {"obj": None}
+
+
 def run_case(case):
+    """case["reuse"]: call on the SAME runner object as the previous case (as run_many_options does);
+    case["via_many"]: go through run_many_options([option, option]) and report the SECOND inner call"""
     STATE["overrides"] = case.get("overrides", [])
     STATE["fracs"] = case.get("fracs", {})
     STATE["default"] = case.get("default", 0.0)
     STATE["calls"] = []
-    runner = M.ScenarioRunnerNoTrade()
+    if not case.get("reuse") or RUNNER["obj"] is None:
+        RUNNER["obj"] = M.ScenarioRunnerNoTrade()
+    runner = RUNNER["obj"]
     out = {}
     try:
         with quiet():
             out["run_skip"] = [list(x) for x in runner.get_countries_to_run_and_skip(list(case["list"]))]
-            world, net_pop, net_fed, results = runner.run_model_no_trade(
-                title="verif_c15", create_pptx_with_all_countries=False, show_country_figures=False,
-                show_map_figures=False, add_map_slide_to_pptx=False, scenario_option=case["scenario_option"],
-                countries_list=list(case["list"]), return_results=case.get("ret", True), save_all_results=False)
+            if case.get("via_many"):
+                captured = []
+                inner = type(runner).run_model_no_trade
+
+                def wrapped(*a, **k):
+                    STATE["calls"] = []
+                    r = inner(runner, *a, **k)
+                    captured.append(r)
+                    return r
+
+                runner.run_model_no_trade = wrapped
+                try:
+                    runner.run_many_options([case["scenario_option"], case["scenario_option"]], "verif_c15",
+                                            add_map_slide_to_pptx=False, show_map_figures=False,
+                                            countries_list=list(case["list"]), return_results=False)
+                finally:
+                    del runner.run_model_no_trade
+                out["inner_calls"] = len(captured)
+                world, net_pop, net_fed, results = captured[-1]
+            else:
+                world, net_pop, net_fed, results = runner.run_model_no_trade(
+                    title="verif_c15", create_pptx_with_all_countries=False, show_country_figures=False,
+                    show_map_figures=False, add_map_slide_to_pptx=False, scenario_option=case["scenario_option"],
+                    countries_list=list(case["list"]), return_results=case.get("ret", True), save_all_results=False)
     except BaseException as e:
         return {"err": classify(e), "msg": str(e)[:200], "calls": list(STATE["calls"])}
     out["net_pop"] = num(net_pop)
